@@ -115,12 +115,27 @@ func (valdec mapDecoder) decodeListAsMap(dec *Decoder, p interface{}, tag byte) 
 	kp := valdec.kt.UnsafeNew()
 	vp := valdec.vt.UnsafeNew()
 	vt := valdec.vt.Type1()
+	freshValue := needsFreshStorage(valdec.vt.Kind())
 	for i := 0; i < count; i++ {
+		if i > 0 && freshValue {
+			vp = valdec.vt.UnsafeNew()
+		}
 		valdec.convertKey(i, kp)
 		valdec.decodeValue(dec, vt, vp)
 		valdec.t.UnsafeSetIndex(mp, kp, vp)
 	}
 	dec.Skip()
+}
+
+// needsFreshStorage reports whether decoding a value of this kind into storage that still
+// holds the previous map entry could reuse (and so alias) that entry's pointee, backing
+// array or nested containers.
+func needsFreshStorage(kind reflect.Kind) bool {
+	switch kind {
+	case reflect.Ptr, reflect.Slice, reflect.Map, reflect.Struct, reflect.Array, reflect.Interface:
+		return true
+	}
+	return false
 }
 
 func (valdec mapDecoder) decodeMap(dec *Decoder, p interface{}) {
@@ -132,7 +147,17 @@ func (valdec mapDecoder) decodeMap(dec *Decoder, p interface{}) {
 	vp := valdec.vt.UnsafeNew()
 	kt := valdec.kt.Type1()
 	vt := valdec.vt.Type1()
+	freshKey := needsFreshStorage(valdec.kt.Kind())
+	freshValue := needsFreshStorage(valdec.vt.Kind())
 	for i := 0; i < count; i++ {
+		if i > 0 {
+			if freshKey {
+				kp = valdec.kt.UnsafeNew()
+			}
+			if freshValue {
+				vp = valdec.vt.UnsafeNew()
+			}
+		}
 		valdec.decodeKey(dec, kt, kp)
 		valdec.decodeValue(dec, vt, vp)
 		valdec.t.UnsafeSetIndex(mp, kp, vp)
